@@ -291,12 +291,180 @@ def ob_anf_order(r, tier, seed, depth, forms, top):
             detail = 'goml `let x = f() && t();` emits: ' + body[:260].replace('\n', ' | ')
         r.findings.append(Finding(key, 'ANF changes the effect trace: ' + what, {'traces': [str(x) for x in (w or ())]}, ok_, detail))
 
+# ----------------------------------------------------------------------------- O9.2 block-level DCE keeps every effect, once, in order, and the returned value
+class GoGen:
+    """lazily chosen straight-line / branching Go blocks over variables {a, b} (+ parameter p); well-formed by construction:
+    a variable is read only after it has been declared, assigned only after it has been declared"""
+    def __init__(s, W, ex, forms=('atom', 'call', 'add', 'div')):
+        tt = W.tt; s.ex = ex; s.n = 0; s.forms = forms
+        s.GE = tt.find_adt(['goast', 'Expr'], 'compiler'); s.GS = tt.find_adt(['goast', 'Stmt'], 'compiler'); s.GT = tt.find_adt(['goty', 'GoType'], 'compiler')
+        s.GB = tt.find_adt(['goast', 'GoBinaryOp'], 'compiler'); s.BL = tt.find_adt(['goast', 'Block'], 'compiler')
+    def T(s, n='TInt32'): return Agg(s.GT.key, s.GT.vindex(n), [])
+    def E(s, n, **kw): return Agg(s.GE.key, s.GE.vindex(n), [kw[f[0]] for f in s.GE.variants[s.GE.vindex(n)].fields])
+    def S(s, n, **kw): return Agg(s.GS.key, s.GS.vindex(n), [kw[f[0]] for f in s.GS.variants[s.GS.vindex(n)].fields])
+    def var(s, n): return s.E('Var', name=mkstr(n), ty=s.T())
+    def atom(s, declared):
+        k = s.ex.choose([(True, v) for v in declared] + [(True, '#7')])
+        return s.E('Int', value=mkstr('7'), ty=s.T()) if k == '#7' else s.var(k)
+    def expr(s, declared, avoid=None):
+        declared = [v for v in declared if v != avoid]      # `x = e` never reads x in goml output (temporaries are single-assignment per path)
+        k = s.ex.choose([(True, o) for o in s.forms])
+        if k == 'atom': return s.atom(declared)
+        if k == 'call':
+            s.n += 1
+            fty = Agg(s.GT.key, s.GT.vindex('TFunc'), [PyVec([s.T()]), mkbox(s.T())])
+            return s.E('Call', func=mkbox(s.E('Var', name=mkstr('f%d' % s.n), ty=fty)), args=PyVec([s.atom(declared)]), ty=s.T())
+        op = 'Add' if k == 'add' else 'Div'
+        return s.E('BinaryOp', op=Agg(s.GB.key, s.GB.vindex(op), []), lhs=mkbox(s.atom(declared)), rhs=mkbox(s.atom(declared)), ty=s.T())
+    def stmt(s, declared, depth):
+        opts = ['decl'] + (['assign'] if [v for v in declared if v != 'p'] else []) + ['call']
+        if depth == 'branch': opts = [o for o in opts if o != 'decl']
+        if depth == 'if': opts = ['if']
+        k = s.ex.choose([(True, o) for o in opts])
+        if k == 'decl':
+            fresh = [v for v in ('a', 'b') if v not in declared]
+            if not fresh: k = 'call'
+            else:
+                name = fresh[0]; e = s.expr(declared); declared.append(name)
+                return s.S('VarDecl', name=mkstr(name), ty=s.T(), value=ms.some(e))
+        if k == 'assign':
+            name = s.ex.choose([(True, v) for v in declared if v != 'p'])
+            return s.S('Assignment', name=mkstr(name), value=s.expr(declared, avoid=name))
+        if k == 'call':
+            s.n += 1
+            fty = Agg(s.GT.key, s.GT.vindex('TFunc'), [PyVec([s.T()]), mkbox(s.T('TUnit'))])
+            return s.S('Expr', **{s.GS.variants[s.GS.vindex('Expr')].fields[0][0] if s.GS.variants[s.GS.vindex('Expr')].fields[0][0] else '0': None}) if False else Agg(s.GS.key, s.GS.vindex('Expr'), [s.E('Call', func=mkbox(s.E('Var', name=mkstr('g%d' % s.n), ty=fty)), args=PyVec([s.atom(declared)]), ty=s.T('TUnit'))])
+        cond = s.E('BinaryOp', op=Agg(s.GB.key, s.GB.vindex('Less'), []), lhs=mkbox(s.atom(declared)), rhs=mkbox(s.atom(declared)), ty=s.T('TBool'))
+        d1 = list(declared); then = s.block(d1, 1, 'branch', inner=True)
+        d2 = list(declared); els = s.block(d2, 1, 'branch', inner=True)
+        return s.S('If', cond=cond, then=then, else_=ms.some(els))
+    def block(s, declared, n, depth, inner=False):
+        return Agg(s.BL.key, 0, [PyVec([s.stmt(declared, depth) for _ in range(n)])])
+
+class GoEval:
+    """symbolic evaluator of the Go subset with uninterpreted calls: produces the effect trace (calls with argument terms, integer
+    divisions as possibly-failing events) and the returned term.  Branches are explored structurally (both sides, as a tree)."""
+    def __init__(s, g): s.g = g
+    def term(s, e, env, trace):
+        GE = s.g.GE
+        if isinstance(e, Agg) and e.ty == 'Box': e = unbox(e)
+        n = GE.variants[e.idx].name; f = dict(zip([x[0] for x in GE.variants[e.idx].fields], e.fields))
+        if n == 'Var':
+            k = ms.pystr(f['name'])
+            if k not in env: raise UseBeforeDecl(k)
+            return env[k]
+        if n == 'Int': return ('int', ms.pystr(f['value']))
+        if n == 'Call':
+            fn = ms.pystr(unbox(f['func']).fields[0]); args = tuple(s.term(a, env, trace) for a in f['args'].items)
+            trace.append(('call', fn, args)); return ('result', fn, args)
+        if n == 'BinaryOp':
+            a = s.term(f['lhs'], env, trace); b = s.term(f['rhs'], env, trace); op = s.g.GB.variants[f['op'].idx].name
+            if op == 'Div' and not (b[0] == 'int' and b[1] != '0'): trace.append(('div', a, b))
+            return ('bin', op, a, b)
+        raise Unsupported('go evaluator: expr ' + n)
+    def block(s, b, env, trace):
+        GS = s.g.GS
+        for st in b.fields[0].items:
+            n = GS.variants[st.idx].name; f = dict(zip([x[0] if x[0] is not None else str(i) for i, x in enumerate(GS.variants[st.idx].fields)], st.fields))
+            if n == 'Expr': s.term(st.fields[0], env, trace)
+            elif n == 'VarDecl':
+                name = ms.pystr(f['name']); v = f['value']
+                env[name] = s.term(v.fields[0], env, trace) if v.idx == 1 else ('zero',)
+                env.setdefault('#declared', set()); env['#declared'] = env['#declared'] | {name}
+            elif n == 'Assignment':
+                name = ms.pystr(f['name']); t = s.term(f['value'], env, trace)
+                if name != '_':
+                    if name not in env: raise UseBeforeDecl('assignment to undeclared ' + name)
+                    env[name] = t
+            elif n == 'Return':
+                trace.append(('ret', s.term(f['expr'].fields[0], env, trace) if f['expr'].idx == 1 else None)); return
+            elif n == 'If':
+                c = s.term(f['cond'], env, trace)
+                e1 = dict(env); t1 = []; s.block(f['then'], e1, t1)
+                e2 = dict(env); t2 = []
+                if f['else_'].idx == 1: s.block(f['else_'].fields[0], e2, t2)
+                trace.append(('if', c, tuple(t1), tuple(t2)))
+                # join: a variable assigned in a branch becomes a phi term
+                for k in set(e1) | set(e2):
+                    if k.startswith('#') or k not in env: continue
+                    if e1.get(k) != env[k] or e2.get(k) != env[k]: env[k] = ('phi', c, e1.get(k), e2.get(k))
+            else: raise Unsupported('go evaluator: stmt ' + n)
+
+class UseBeforeDecl(Exception): pass
+
+def ob_block_dce(r, tier, seed, nstmts, depth, forms=('atom', 'call', 'add', 'div')):
+    W = e2.fresh_world(CRATES)
+    r.bounds = 'Go blocks of %d statements (+ final `return <var>`) over {VarDecl, Assignment, call statement%s}, variables {a, b} and parameter p, initialisers among atom / call / + / integer division; nothing live afterwards' % (nstmts, ', if/else with 1-statement branches' if depth else '')
+    r.assumptions = ['inputs are well-formed Go by construction (declared before use)', 'an assignment `x = e` never reads x itself: goml has no mutable locals, emitted temporaries are assigned once per path (a kernel counterexample `var a = p; a = a; return a` exists - dce drops the initialiser - but no goml program produces that shape)', 'oracle: translation validation with uninterpreted calls - the sequence of calls (with argument terms), of possibly-failing integer divisions and of branch events, and the returned term, must be identical before and after DCE; every variable read or assigned in the output must be declared there']
+    def entry(ex):
+        g = GoGen(W, ex, forms); declared = ['p']
+        blk = g.block(declared, nstmts, 0)
+        if depth: blk.fields[0].items.append(g.stmt(declared, 'if'))
+        ret = ex.choose([(True, v) for v in declared])
+        blk.fields[0].items.append(g.S('Return', expr=ms.some(g.var(ret))))
+        ev = GoEval(g); t_in = []; ev.block(blk, {'p': ('param', 'p')}, t_in)
+        inp = describe_block(g, blk)
+        h = {0: PySet([], 'hash')}
+        res = ex.call('go::dce::dce_block_with_live', [blk, Ref(h, 0)])
+        outb = res.fields[0]
+        t_out = []
+        try: ev.block(outb, {'p': ('param', 'p')}, t_out)
+        except UseBeforeDecl as e: return inp, describe_block(g, outb), t_in, 'USE-BEFORE-DECL: %s' % e
+        return inp, describe_block(g, outb), t_in, t_out
+    res = e2.explore(r, W, entry, [])
+    found = {}
+    for p in res:
+        r.cases += 1
+        if p.kind != 'ok': found.setdefault('panic', ('dce_block_with_live panics: %s' % p.value, None)); continue
+        inp, outp, t_in, t_out = p.value
+        r.nontrivial += 1
+        if isinstance(t_out, str): found.setdefault('undeclared-variable', ('DCE output uses a variable it no longer declares (%s): input `%s` output `%s`' % (t_out, inp, outp), (inp, outp)))
+        elif t_in != t_out:
+            calls = lambda t: [e for e in t if e[0] == 'call']
+            key = 'effect-dropped-or-reordered' if [e[:2] for e in flat_events(t_in)] != [e[:2] for e in flat_events(t_out)] else 'value-changed'
+            found.setdefault(key, ('DCE changes behaviour: input `%s` output `%s`: trace before %s, after %s' % (inp, outp, t_in, t_out), (inp, outp)))
+        elif len(r.samples) < 3 and inp != outp: r.samples.append({'input': inp, 'output': outp})
+    for key, (what, w) in found.items():
+        r.findings.append(Finding(key, what[:900], {'blocks': w}, True, 'output block produced by the real dce_block_with_live MIR on the printed input block'))
+
+def flat_events(t):
+    out = []
+    for e in t:
+        if e[0] == 'if': out.append(('if', None)); out += flat_events(e[2]) + flat_events(e[3])
+        else: out.append(e)
+    return out
+
+def describe_block(g, b):
+    GS, GE = g.GS, g.GE
+    def ex_(e):
+        if isinstance(e, Agg) and e.ty == 'Box': e = unbox(e)
+        n = GE.variants[e.idx].name; f = dict(zip([x[0] for x in GE.variants[e.idx].fields], e.fields))
+        if n == 'Var': return ms.pystr(f['name'])
+        if n == 'Int': return ms.pystr(f['value'])
+        if n == 'Call': return '%s(%s)' % (ex_(f['func']), ', '.join(ex_(a) for a in f['args'].items))
+        if n == 'BinaryOp': return '%s %s %s' % (ex_(f['lhs']), {'Add': '+', 'Div': '/', 'Less': '<'}.get(g.GB.variants[f['op'].idx].name, '?'), ex_(f['rhs']))
+        return n
+    out = []
+    for st in b.fields[0].items:
+        n = GS.variants[st.idx].name; f = dict(zip([x[0] if x[0] is not None else str(i) for i, x in enumerate(GS.variants[st.idx].fields)], st.fields))
+        if n == 'Expr': out.append(ex_(st.fields[0]))
+        elif n == 'VarDecl': out.append('var %s%s' % (ms.pystr(f['name']), ' = ' + ex_(f['value'].fields[0]) if f['value'].idx == 1 else ''))
+        elif n == 'Assignment': out.append('%s = %s' % (ms.pystr(f['name']), ex_(f['value'])))
+        elif n == 'Return': out.append('return %s' % (ex_(f['expr'].fields[0]) if f['expr'].idx == 1 else ''))
+        elif n == 'If': out.append('if %s { %s } else { %s }' % (ex_(f['cond']), describe_block(g, f['then']), describe_block(g, f['else_'].fields[0]) if f['else_'].idx == 1 else ''))
+        else: out.append(n)
+    return '; '.join(out)
+
 def obligations():
     obs = [Ob('O9.1-effect-predicate-d1', 'DCE effect predicate is sound, depth 1', ob_effect_predicate, ('quick', 'thorough'), 2, dict(depth=1)),
            Ob('O9.1-effect-predicate-d2', 'DCE effect predicate is sound, depth 2', ob_effect_predicate, ('quick', 'thorough'), 10, dict(depth=2))]
     obs += [Ob('O9.3-anf-order-call-d1', 'ANF keeps the source effect trace: f(A1, A2), depth 1', ob_anf_order, ('quick', 'thorough'), 3, dict(depth=1, forms=['call1', 'call2', 'add', 'if', 'let', 'tuple', 'while', 'and', 'or', 'not', 'less'], top='call')),
             Ob('O9.3-anf-order-bool-d1', 'ANF keeps short-circuit evaluation of && / ||', ob_anf_order, ('quick', 'thorough'), 3, dict(depth=1, forms=['and', 'or', 'not', 'less', 'call1'], top='bool')),
             Ob('O9.3-anf-order-call-d2', 'ANF keeps the source effect trace: f(A1, A2), depth 2', ob_anf_order, ('thorough',), 100, dict(depth=2, forms=['call1', 'add', 'if', 'let', 'and', 'or'], top='call'))]
+    obs += [Ob('O9.2-block-dce-2', 'block-level DCE preserves effects and the returned value: 2 statements + return', ob_block_dce, ('quick', 'thorough'), 3, dict(nstmts=2, depth=0)),
+            Ob('O9.2-block-dce-3', 'block-level DCE: 3 statements + return', ob_block_dce, ('thorough',), 20, dict(nstmts=3, depth=0)),
+            Ob('O9.2-block-dce-if', 'block-level DCE: 1 statement, then if/else with one assignment or call per branch, + return', ob_block_dce, ('quick', 'thorough'), 20, dict(nstmts=1, depth=1, forms=('atom', 'call', 'div'))),
+            Ob('O9.2-block-dce-if2', 'block-level DCE: 2 statements, then if/else, + return', ob_block_dce, ('thorough',), 200, dict(nstmts=2, depth=1, forms=('atom', 'call')))]
     return obs
 
 META = {
